@@ -41,9 +41,8 @@ ResultAgrees(e, exp) ==
                                                                 "HeaderIncorrect", "EndiannessUnsupported"}
                                   /\ ErrAdmissible(exp.end[2], r)
 
-ContentOK(e) ==
-  LET exp == Run(e.words, e.script)
-      n == Len(exp.calls)
+ContentOK(e, exp) ==
+  LET n == Len(exp.calls)
       \* TrailingPartialWord rejected (see ResultAgrees): 1-3 bytes follow the last instruction and the parser reports
       \* them as a parse error instead of calling finalize (whatever the consumer would have answered there)
       rejectedTail == /\ e.tail > 0 /\ e.result[1] = "Err" /\ e.result[2] \notin {"ConsumerStopRequested", "ConsumerError"}
@@ -64,7 +63,7 @@ FrameWalk(ws, p, acc) ==
        ELSE FrameWalk(ws, p + wc, Append(acc, p))
 
 \* C14, independently of the grammar: order, at-most-once, obedience to the answers
-ShapeOK(e) ==
+ShapeOK(e, exp) ==
   LET n == Len(e.calls)
       name(j) == e.calls[j].n
       r == e.result
@@ -91,10 +90,20 @@ ShapeOK(e) ==
         /\ k <= Len(fw.starts)
         /\ \A i \in 1..k : e.calls[2 + i].inst.op = e.words[fw.starts[i]][2]
         /\ (r = <<"Ok">> => k = Len(fw.starts) /\ fw.endp = Len(e.words) + 1))
+  \* "for all binaries": when the binary has no fault up to the point where the consumer ends the parse (or up to its
+  \* end), the consumer receives exactly the callbacks of Parser!Run, by name -- a parse error invented for a well-formed
+  \* instruction deprives it of the remaining instruction callbacks and of finalize (1-3 trailing bytes may be rejected)
+  \* "finalize only if the whole binary was parsed without error": a binary with a fault (per the grammar) that the
+  \* consumer did not cut short never ends in Ok / finalize
+  /\ (exp.end[1] \in {"fault", "hdr"} => r # <<"Ok">> /\ name(n) # "finalize")
+  /\ (exp.end[1] \in {"complete", "stop", "error"} =>
+        LET m == Len(exp.calls) IN
+        \/ n = m /\ \A j \in 1..m : name(j) = exp.calls[j].n
+        \/ e.tail > 0 /\ parseErr /\ exp.calls[m].n = "finalize" /\ n = m - 1 /\ \A j \in 1..n : name(j) = exp.calls[j].n)
 
 ParseCode(e) ==
   IF IsPanic(e.result) THEN 4 + 1
-  ELSE (IF ContentOK(e) THEN 0 ELSE 1) + (IF ShapeOK(e) THEN 0 ELSE 2)
+  ELSE LET exp == Run(e.words, e.script) IN (IF ContentOK(e, exp) THEN 0 ELSE 1) + (IF ShapeOK(e, exp) THEN 0 ELSE 2)
 
 ---------------------------------------------------------------------------
 RECURSIVE TrackAll(_, _, _)
